@@ -51,7 +51,7 @@ func (*prop) Cases(seed int64, tier string) []core.Case {
 	loads, pk, dc := 24, 5, 30
 	tagN := 6000
 	if tier == "thorough" {
-		loads, pk, dc = 64, 10, 60
+		loads, pk, dc = 256, 10, 60
 		tagN = 60000
 	}
 	var cs []core.Case
